@@ -6,6 +6,7 @@ mod gen;
 mod jt;
 mod keys;
 mod msg;
+mod replay;
 mod rich;
 
 use std::collections::HashMap;
@@ -40,6 +41,7 @@ fn main() {
                 &rich::RichOpts { n: num("n", 200) as usize, seed: num("seed", 1), tree, arbitrary_sel: get("arbsel", "0.2").parse().unwrap(), bad_paths: true, also_verify_issued: true },
             );
         }
+        "replay" => replay::run(&mut ctx, &replay::ReplayOpts { scn: get("scn", "scn.ndjson"), limit: num("n", 1_000_000) as usize, matrix: get("matrix", "1") == "1", seed: num("seed", 1) }),
         d => {
             eprintln!("unknown driver {d}");
             std::process::exit(2);
